@@ -100,7 +100,7 @@ def text_of(rnd, nlines, allow_specific=True, token_pool=()):
     return '\n'.join(lines) + ('\n' if rnd.random() < 0.85 else '')
 
 
-def make_case(rnd, wd, shape, tmpdir_tokens_with_one_iteration=True, dated_first_line=None):
+def make_case(rnd, wd, shape, tmpdir_tokens_with_one_iteration=True, dated_first_line=None, hint=None):
     """shape: list of output names among 'o1' (text file), 'o2' (binary file).  Returns the case description."""
     os.makedirs(wd, exist_ok=True)
     # (control characters next to $TMPDIR mentions are the known finding D37, recorded under C11: the C12 driver avoids them)
@@ -118,6 +118,9 @@ def make_case(rnd, wd, shape, tmpdir_tokens_with_one_iteration=True, dated_first
     names = {}
     if 'o1' in shape:
         names['o1'] = rnd.choice(['out1.txt', 'report.log', 'result.csv', 'ünï.txt'])
+        if shape == ['o1'] and hint is not None and hint % 4 == 1:
+            # an output in a sub-directory whose name merely begins like gentest's own ref/ directory
+            names['o1'] = rnd.choice(['refined/summary.txt', 'reference/out.log', 'refs/r.csv', 'ref_data/t.txt'])
         files[names['o1']] = {'kind': 'text', 'text': text_of(rnd, rnd.randint(1, 4), token_pool=tokens)}
     if 'o1' in shape and rnd.random() < 0.25:
         files[names['o1']]['old_mtime'] = True
@@ -201,6 +204,12 @@ def make_case(rnd, wd, shape, tmpdir_tokens_with_one_iteration=True, dated_first
         flags.append('--non-zero-exit')
         nonzero = True
     refs_mode = rnd.choice(['dir', 'named', 'glob']) if names and 'o3' not in names else 'dir'
+    if 'o4' in names and hint is not None and hint % 3 == 1:
+        # outputs named by a wildcard, one of whose matches is there before generation (left over from an earlier run)
+        refs_mode = 'glob'
+        n = names['o1']
+        with open(os.path.join(wd, n), 'w') as f:
+            f.write('left over from an earlier run\n')
     if 'o6' in names:
         refs_mode = 'named'
     if 'o5' in names:
@@ -211,7 +220,10 @@ def make_case(rnd, wd, shape, tmpdir_tokens_with_one_iteration=True, dated_first
     elif refs_mode == 'outdir':
         refs = [names['o1'].split('/')[0]]
     elif refs_mode == 'glob':
-        refs = ['*.' + names[k].rsplit('.', 1)[1] for k in sorted(names)]
+        refs = [(os.path.dirname(names[k]) + '/' if '/' in names[k] else '') + '*.' + names[k].rsplit('.', 1)[1] for k in sorted(names)]
+        refs = list(dict.fromkeys(refs))
+    if refs and refs_mode in ('named', 'glob') and rnd.random() < 0.2:
+        refs.append(rnd.choice(['*.nomatch', 'rejects/*.csv', 'no?such.log']))        # a wildcard that matches nothing (ignored with a warning)
     script = rnd.choice(['test_job.py', 'test_job', os.path.join(wd, 'test_job.py')])
     # arguments the command ignores, but which are part of the command TEXT that gentest records in the script
     cmd_args = rnd.choice(['', '', '', " 'C:\\Users\\xavier\\notes.txt'", " '\\d+ \\N \\x'", ' "two words" --flag=1', " 'it is 100%% {ok}'",
